@@ -54,6 +54,7 @@ func init() {
 		runner.Part{Scenario: "simhost", Params: p("readmix", "60", "pmember", "10", "pcrash", "5"), Share: 1})
 	sh("C07", 90, 1200, runner.Part{Scenario: "simhost", Params: p("pmember", "20", "hosts", "4"), Share: 2},
 		runner.Part{Scenario: "simhost", Params: p("pmember", "12", "hosts", "5", "pcrash", "6"), Share: 1},
+		runner.Part{Scenario: "simhost", Params: p("pmember", "25", "ptransfer", "30", "hosts", "4", "smyield", "300"), Share: 2},
 		runner.Part{Scenario: "l0/rsmtwin", Params: p("focus", "membership"), Share: 1})
 	sh("C08", 90, 1200, runner.Part{Scenario: "simhost", Params: p("snapshot", "5", "overhead", "0", "pcrash", "6", "ppartition", "8", "ops", "40"), Share: 2},
 		runner.Part{Scenario: "simhost", Params: p("snapshot", "12", "overhead", "2", "psnapreq", "10", "pstop", "4", "compress", "1"), Share: 1},
